@@ -43,6 +43,22 @@ CHECKS["C12"] = dict(
     note="Trusted: as C11. Distances are compared as exact integer squares (sqrt is monotone); ties are compared by distance only.",
     technique="TLA+ model of the NN search checked by TLC; recorded NN answers of the real code validated by TLC against the bag oracle")
 
+CHECKS["C18"] = dict(
+    level="model_checking",
+    text="OSMExtract.tla models extract() at the granularity of its lock-delimited steps (hasNeedX reads, map writes, the "
+         "needAnotherPass flag, pass loop) for W workers; TLC checks for every interleaving of every document in the bounded "
+         "universe that the result is exactly Least(doc, keep) (R1), never more than it at any time, passes Check, and that "
+         "extraction terminates (liveness under weak fairness). TLC schedules (breadth-first prefixes to every distinct state, "
+         "simulated complete schedules) are replayed on the real worker goroutines, parked at verif yield points placed outside "
+         "every lock and released one step at a time; each recorded step is validated as an action of the model and each result "
+         "against Least; the same and larger random documents are also run freely under GOMAXPROCS 1/2/4/16. Filter is checked "
+         "for idempotence, closure and inclusion on every result.",
+    design_ref="DESIGN.md section 5, C18",
+    note="Trusted: TLC, the yield/record hooks (add-only, build tag verif), the XML rendering of documents. Schedules are explored "
+         "at hook-point granularity; exhaustive only for documents of <= 6 objects and W <= 3; XML input only (no PBF writer offline).",
+    technique="TLA+ model of the worker pool checked by TLC (safety + liveness); TLC schedules replayed on real goroutines via gate hooks; "
+              "recorded steps and results validated by TLC against the model and the least-closure oracle")
+
 NOT_YET = "check not built yet in this round of work; will be claimed when its specification, replay and trace validation exist"
 NA = {
     "C09": "oracle is proj4js 2.3.12 and closed-form geodesy (real-valued transcendental functions, a JavaScript program that "
@@ -99,7 +115,7 @@ def main():
         f.write("\n")
 
 
-HOOK_COMMITS = ["d8229ad"]
+HOOK_COMMITS = ["d8229ad", "4b3ed9c"]
 
 if __name__ == "__main__":
     main()
